@@ -384,8 +384,8 @@ def classify(it, v):
     # the recorded finding is specific: the single-file program is accepted and RUNS, the layout with a from-import
     # of a re-exported name is REJECTED at compile time (name resolution: "Cannot find .. in namespace ..").  Any
     # other disagreement in these families (different run, different error class, rejected single file) is new.
-    # (and only the FROM-import: `use m` + `m.x` works in every order, by the finding's own text)
-    if it["kind"] == "reexport" and v and v.startswith("single file ('OK'") \
+    # (reexport-ns projects contain the same from-imports of re-exported names further down the chain)
+    if it["kind"] in ("reexport", "reexport-ns") and v and v.startswith("single file ('OK'") \
             and "multi-file layout ('ERR', 'Compile')" in v:
         return "from-import-of-reexport-depends-on-module-order"
     return None
